@@ -14,41 +14,110 @@ def single_val(outs):
     return None
 
 
-def lookup_form(ctx, config, U, path, key_fn, label):
-    """`iter ▸ find(|unit| key_fn(unit) == arg)` over the type's own iterator."""
-    outs, b, ev = G.summarize(U, path, {"*"}, stop=G.STOP_LOOKUP)
-    t = single_val(outs)
-    inst = "%s/%s" % (config, label)
-    ok = False
-    why = "not a single `iter().find(..)` expression: " + "; ".join(T.show(o[2]) for o in outs)
-    if t is not None and t[0] == "app" and t[1] == ITER + "find" and len(t[3]) == 2:
-        src, clo = t[3]
-        src_ok = src in (("app", "Unit::iter", None, ()), ("app", "Quantity::iter_units", None, ()))
-        if not src_ok:
-            why = "find() does not run over the unit iterator but over %s" % T.show(src)
-        elif clo[0] != "closure":
-            why = "find() predicate is not a closure"
+def key_only_compared(outs, ev, ops):
+    """The lookup key (parameter 0) may occur only as a direct operand of the
+    comparison operators `ops` — in guards, results and closure bodies.  Then
+    the function is decided by a finite partition of the key domain."""
+    bad = []
+
+    def walk(t, in_cmp, where):
+        if not isinstance(t, tuple):
+            return
+        if t[0] == "p" and t[1] == 0:
+            if not in_cmp:
+                bad.append(where)
+            return
+        if t[0] == "closure":
+            u = ("p", 100, "u")
+            for (g, k, x) in ev.summarize_closure(t, [u]):
+                for a, _p in g:
+                    walk(a, False, "closure guard")
+                walk(x, False, "closure body")
+            for _vid, cap in t[2]:
+                if cap[0] == "p" and cap[1] == 0:
+                    continue
+                walk(cap, False, "closure capture")
+            return
+        if t[0] in ops:
+            for x in t[1:]:
+                walk(x, True, where)
+            return
+        if t[0] == "app":
+            for x in t[3]:
+                walk(x, False, "argument of " + t[1])
+            return
+        if t[0] in ("num", "str", "bool", "variant", "none", "const", "unit"):
+            return
+        for x in t[1:]:
+            walk(x, False, where)
+    for (g, k, t) in outs:
+        for a, _p in g:
+            walk(a, False, "guard")
+        walk(t, False, "result")
+    return bad
+
+
+LOOKUPS = ((G.UNIT + "from_symbol", "symbol", "Unit::from_symbol"),
+           (G.QTY + "unit_from_symbol", "symbol", "Quantity::unit_from_symbol"),
+           (G.LSU + "from_scale", "scale", "LinearScaledUnit::from_scale"),
+           (G.HRU + "unit_from_scale", "scale", "HasRefUnit::unit_from_scale"))
+
+
+def lookup_summaries(ctx, config, U):
+    """Gated summaries of the four lookups (delegation between them inlined);
+    the key must be used in comparisons only."""
+    res = {}
+    for path, kind, label in LOOKUPS:
+        outs, b, ev = G.summarize(U, path, {"*"}, stop=G.STOP_LOOKUP)
+        try:
+            bad = key_only_compared(outs, ev, ("==",) if kind == "symbol" else ("==", "<", "<="))
+        except T.Unsupported as x:
+            bad = ["unsupported closure: " + x.what]
+        ctx.ob("lookup-key-use", "%s/%s" % (config, label), not bad,
+               "%s uses its key outside comparisons (%s): the finite key partition would not decide it" % (label, bad), b["span"])
+        ctx.sample({"function": path, "summary": "; ".join("[%s] %s" % (T.show_guard(g), T.show(t)) for g, k, t in outs)[:400]})
+        if not bad:
+            res[label] = (kind, outs, b, ev)
+    return res
+
+
+def lookup_results(ctx, config, w, q, lookups, counts):
+    """Every lookup evaluated on the type's tables for every key class: each
+    symbol / scale of the table (expected: the FIRST unit in iteration order
+    carrying it), the empty string, a string / the scale cells that no unit
+    carries, and NaN in f64 (expected: None)."""
+    from . import conc, rules_c05
+    vc = q.variants_const
+    for label, (kind, outs, b, ev) in sorted(lookups.items()):
+        if kind == "scale" and (q.kind not in ("ref", "dimless") or "scale" not in q.tables):
+            continue
+        if kind == "symbol":
+            tbl = {v: q.tables["symbol"][v][1] for v in vc}
+            keys = [(repr(k), k) for k in sorted(set(tbl.values()) | {""})] + [("<a string no unit carries>", "\x00qv\x00")]
         else:
-            u = ("p", 100, "unit")
+            tbl = {v: q.tables["scale"][v][1] for v in vc}
+            keys = [(n, x) for (n, x) in rules_c05.cells(q)]
+            if config.startswith("f64"):
+                keys.append(("NaN", float("nan")))
+        for (kname, key) in keys:
+            inst = "%s/%s/%s/%s" % (config, q.path, label, kname)
+            want = next((v for v in vc if tbl[v] == key), None)
             try:
-                co = ev.summarize_closure(clo, [u])
-            except T.Unsupported as x:
-                co = None
-                why = "unsupported closure: " + x.what
-            if co is not None:
-                pv = single_val(co)
-                want = T.canon(("==", S.app(key_fn, u), S.P(0, b["params"][0]["pat"]["name"])))
-                ok = pv == want
-                why = "find() predicate is %s, expected %s" % (T.show(pv) if pv else co, T.show(want))
-    ctx.ob("lookup-form", inst, ok, why, b["span"])
-    ctx.sample({"function": path, "summary": T.show(t) if t else str(outs)})
+                r = conc.Conc(w.U, q, ev).pick(outs, {0: key})
+            except conc.ModelPanic as x:
+                ctx.fail("lookup-result", inst, "%s(%s) panics: %s" % (label, kname, x), b["span"])
+                continue
+            except (conc.CannotEvaluate, T.Unsupported) as x:
+                ctx.fail("lookup-result", inst, "cannot evaluate the lookup model: %s" % x, b["span"])
+                continue
+            got = r[1] if r is not None else None
+            counts["lookups"] = counts.get("lookups", 0) + 1
+            ctx.ob("lookup-result", inst, got == want,
+                   "%s(%s) on %s yields %s, specified: %s" % (label, kname, q.path, got, want if want else "None (no unit carries it)"),
+                   b["span"], nontrivial=False)
 
 
 def generic_rules(ctx, config, U):
-    lookup_form(ctx, config, U, G.UNIT + "from_symbol", "Unit::symbol", "Unit::from_symbol")
-    lookup_form(ctx, config, U, G.QTY + "unit_from_symbol", "Unit::symbol", "Quantity::unit_from_symbol")
-    lookup_form(ctx, config, U, G.LSU + "from_scale", "LinearScaledUnit::scale", "LinearScaledUnit::from_scale")
-    lookup_form(ctx, config, U, G.HRU + "unit_from_scale", "LinearScaledUnit::scale", "HasRefUnit::unit_from_scale")
     # iter_units is the unit type's iterator
     outs, b, _ = G.summarize(U, G.QTY + "iter_units", set())
     ctx.ob("iter-units", config, single_val(outs) == ("app", "Unit::iter", None, ()),
@@ -104,11 +173,15 @@ def run_config(ctx, config, counts):
     U = w.U
     ctx.configs.append(config)
     generic_rules(ctx, config, U)
+    lookups = lookup_summaries(ctx, config, U)
+    for q in w.qtypes:
+        lookup_results(ctx, config, w, q, lookups, counts)
     for d in w.un_d:
         ctx.fail("linkage", "%s/%s" % (config, d.key), "declared quantity has no generated type", "%s:%d" % (d.file, d.line_start))
     for q in w.un_q:
         ctx.fail("linkage", "%s/%s" % (config, q.path), "generated quantity type without declaration", q.span)
     per_type(ctx, config, w, counts)
+    return lookups
 
 
 def per_type(ctx, config, w, counts):
@@ -178,8 +251,9 @@ def per_type(ctx, config, w, counts):
 
 def run(ctx):
     counts = {"types": set(), "units": set()}
+    lk = {}
     for config in ("f64-all", "dec-all"):
-        run_config(ctx, config, counts)
+        lk[config[:3]] = run_config(ctx, config, counts)
     # synthetic definitions: the witness corpus of C11 (attribute permutations, ties, names
     # whose order differs from the order of the generated identifiers), type-checked only
     from . import rules_c11
@@ -191,13 +265,16 @@ def run(ctx):
                 cw.config = "%s-seed%d" % (cw.config, sd)
             ctx.configs.append(cw.config)
             per_type(ctx, cw.config, cw, counts)
+            for q in cw.qtypes:
+                lookup_results(ctx, ("f64-" if label == "f64" else "dec-") + cw.config, cw, q, lk[label], counts)
     ctx.floor("corpus quantity types", len([t for t in counts["types"] if t[0].startswith("corpus")]), 2 * 30)
     ctx.floor("f64-all quantity types with declaration", len([t for t in counts["types"] if t[0] == "f64-all"]), 27)
     ctx.floor("dec-all quantity types with declaration", len([t for t in counts["types"] if t[0] == "dec-all"]), 24)
+    ctx.floor("lookup evaluations (type x lookup x key class)", counts.get("lookups", 0), 4500)
     ctx.floor("f64-all units", len([t for t in counts["units"] if t[0] == "f64-all"]), 112 + 27 + 30)
     ctx.exhaustive = True
-    ctx.rule_text = "per unit enum: permutation, order vs declaration, iterator source, one constant per unit, symbol round trip; per configuration: lookup forms"
+    ctx.rule_text = "per unit enum: permutation, order vs declaration, iterator source, one constant per unit, symbol round trip; per configuration: the four lookups evaluated on every type's table for every key class"
     ctx.trusted = ["rustc THIR construction and resolution", "std contracts: <[T]>::iter order, Iterator::cloned, Iterator::find = first match or None"]
     ctx.explanation = ("VARIANTS of every unit enum is folded and compared with the order computed from the un-expanded declaration by exact rationals; "
-                       "Unit::iter reads that very table; lookups are `iter().find(key(unit) == arg)` with the specified key (closure bodies summarised); "
+                       "Unit::iter reads that very table; the four lookups (delegation inlined) use their key in comparisons only and their gated summaries are evaluated on every type's symbol / scale table for every key class (each table key, the empty string, a key no unit carries, the cells between scales, NaN) against the specified result: the first unit in iteration order carrying the key, else None; "
                        "constants, REF_UNIT, is_ref_unit, as_qty by value-flow forms. Complete for every macro instance in the workspace, both back-ends.")
